@@ -786,6 +786,13 @@ class H2Connection:
                 stream_id, priority_weight, priority_depends_on
             )
 
+        # Only clients open streams with HEADERS: a server sends them on
+        # streams the client opened or that it has promised itself. Look the
+        # stream up before the connection state machine hears of the call, so
+        # that a refused call leaves an idle connection idle.
+        if not self.config.client_side:
+            stream = self._get_stream_by_id(stream_id)
+
         # Check we can open the stream.
         if stream_id not in self.streams:
             max_open_streams = self.remote_settings.max_concurrent_streams
@@ -798,9 +805,10 @@ class H2Connection:
         self.state_machine.process_input(ConnectionInputs.SEND_HEADERS)
         new_stream = stream_id not in self.streams
         highest_stream_id = self.highest_outbound_stream_id
-        stream = self._get_or_create_stream(
-            stream_id, AllowedStreamIDs(self.config.client_side)
-        )
+        if self.config.client_side:
+            stream = self._get_or_create_stream(
+                stream_id, AllowedStreamIDs.ODD
+            )
         try:
             frames = stream.send_headers(
                 headers, self.encoder, end_stream,
